@@ -17,9 +17,10 @@ META = {
         "evaluation of ServerProxy.__init__ and _run_request over URL shapes, is path [+ '?' + query] with '/' substituted "
         "only for an empty path and always for unix+ URLs; C17.5 the same evaluation shows every scheme outside "
         "{http, https, unix+http} raising IOError in the constructor and every accepted one storing a transport; C17.6 (imported from "
-        "C19.3) each response is fed into a parser/target created for it, and close() returns exactly the join of what was fed."),
+        "C19.3) each response is fed into a parser/target created for it, and close() returns exactly the join of what was fed. C17.7 (imported from C18.3) the read-only header table consulted when additional headers are merged is exactly {content-length, content-type} (lower case): a pushed Content-Type cannot replace or duplicate the configured one."),
     "does_not_decide": "gzip decoding, HTTP parsing, actual byte streams (http.client behaviour).",
-    "rules": {"C17.1": "same-reaching-definition (E2) + provenance", "C17.2": "provenance", "C17.3": "loop-body call scan + reachability",
+    "rules": {"C17.7": "imported C18.3 (read-only header table, constant folding vs spec)",
+              "C17.1": "same-reaching-definition (E2) + provenance", "C17.2": "provenance", "C17.3": "loop-body call scan + reachability",
               "C17.4": "shape interpreter (E7) over URL shapes", "C17.5": "shape interpreter over schemes vs spec A.7", "C17.6": "imported C19.3"},
     "assumptions": ["urllib.parse.urlparse splits scheme/netloc/path/query as documented (its result is stubbed per case)"],
 }
@@ -148,7 +149,10 @@ def check(ck):
         for path in ("", "/", "/a/b", "/tmp/s.sock"):
             for query in ("", "x=1&y=%202"):
                 cases.append((scheme, "h:80", path, query, True))
-    for scheme in ("ftp", "", "ws", "unix+ftp", "unix+", "httpx", "unix+https+x", "file", "unix+https"):
+    # the rejected schemes include ones that only differ from a supported one by repeated prefix material (a prefix removed
+    # with str.lstrip, which strips a character set, or removed twice, would accept them)
+    for scheme in ("ftp", "", "ws", "unix+ftp", "unix+", "httpx", "unix+https+x", "file", "unix+https", "unix+unix+http", "unix++http",
+                   "unix+xhttp", "unix+nix+http", "+http", "unixhttp", "xhttp", "http+", "unix+http+"):
         cases.append((scheme, "h", "/p", "", False))
     if ck.tier == "thorough":
         # larger universe: more paths (dots, trailing slash, encoded characters, a path that looks like a query), more queries
@@ -165,7 +169,7 @@ def check(ck):
                         if netloc != "h" and (path not in ("", "/a") or query not in ("", "a=1&a=2")):
                             continue
                         cases.append((scheme, netloc, path, query, True))
-        for scheme in ("gopher", "htt", "https+unix", "unix", "unix+unix+http", "http+unix", "smtp", "unix+httpss", "s3", "data", "unix+file"):
+        for scheme in ("gopher", "htt", "https+unix", "unix", "unix+unix+https", "http+unix", "smtp", "unix+httpss", "s3", "data", "unix+file"):
             cases.append((scheme, "h", "/p", "q=1", False))
     n4 = 0
     for (scheme, netloc, path, query, accepted) in cases:
@@ -220,6 +224,11 @@ def check(ck):
     from rules import c19, common
     common.import_rules(ck, c19, {"C19.3": "C17.6"})
     ck.floor("C17.6", 8)
+
+    # ---- C17.7 the declared content type cannot be overridden (shared with C18.4) --------------------------------------------
+    from rules import c18 as _c18r
+    common.import_rules(ck, _c18r.rule_readonly_table, {"C18.3": "C17.7"})
+    ck.floor("C17.7", 1)
 
 
 def _reach_before_exit(g, start, head):
